@@ -263,3 +263,29 @@ func Main(run func(args []string) error) {
 		os.Exit(1)
 	}
 }
+
+// words16 prints b as little-endian 16-byte words.
+func words16(b []byte) string {
+	var it []string
+	for i := 0; i < len(b); i += 16 {
+		j := i + 16
+		if j > len(b) {
+			j = len(b)
+		}
+		z := new(big.Int)
+		for k := j - 1; k >= i; k-- {
+			z.Lsh(z, 8)
+			z.Or(z, big.NewInt(int64(b[k])))
+		}
+		it = append(it, z.String())
+	}
+	return List(it)
+}
+
+// BytesZ prints a byte string as the compact Coq literal `(bytesz n words)`
+// (Model/Codec.v: n bytes as little-endian 16-byte words) — far cheaper to
+// parse than a list of bytes.
+func BytesZ(b []byte) string { return fmt.Sprintf("(bytesz %d %s)", len(b), words16(b)) }
+
+// VBytes prints a byte array/slice/string inside a model value as `(vbytes n words)`.
+func VBytes(b []byte) string { return fmt.Sprintf("(vbytes %d %s)", len(b), words16(b)) }
